@@ -134,6 +134,62 @@ Fixpoint acked (tr : list (call * resp)) : list event :=
 Definition pending_send (p : point) : list event :=
   match pending p with CSend evs => evs | _ => [] end.
 
+(* ---------- the repeat timer ---------- *)
+
+Definition advanced (wr : working_repeat) : working_repeat :=
+  match wr with
+  | Idle => Idle
+  | Repeating ks nw iv => Repeating ks (nw + as_u64 iv * ns_per_ms)%Z iv
+  end.
+
+Section Timer.
+Variable is_action : key -> bool.
+Variable L : layout.
+
+(* the value of `working_repeat` after the answer of configuration x has been
+   processed (when the loop goes on): the ONLY ways it changes *)
+Definition wr_after (x : conf) : working_repeat :=
+  let st := c_state x in
+  match c_point x, c_resp x with
+  | PNowStep ks d i _, RNow now => Repeating ks (now + as_u64 d * ns_per_ms)%Z i   (* armed: now + delay *)
+  | PTab _, RTab (NOne _) => Idle                                                  (* any tablet event cancels *)
+  | PPoll _, RPoll PTimedOut =>
+    match l_wr st with
+    | Idle => Idle
+    | Repeating ks nw iv =>
+      if l_tablet st then Idle
+      else if non_nil (chord_events (l_mapper st) ks) then l_wr st   (* advanced after the chord is sent *)
+           else advanced (l_wr st)
+    end
+  | PSendChord _, RUnit => advanced (l_wr st)                                      (* tick: + interval *)
+  | PKbd _, RKbd (NOne e) =>
+    if l_tablet st then l_wr st
+    else match step is_action L (l_mapper st) e with
+         | ([], RRDisabled, _) => Idle                                              (* acted key event cancels *)
+         | _ => l_wr st
+         end
+  | PSendStep _ RRDisabled _, RUnit => Idle                                        (* ... after its output is sent *)
+  | _, _ => l_wr st
+  end.
+
+End Timer.
+
+(* the script "k time-outs in a row" with clock readings nows, and the calls it must produce *)
+Fixpoint tick_script (has_chord : bool) (nows : list Z) : list resp :=
+  match nows with
+  | [] => []
+  | now :: t => RNow now :: RPoll PTimedOut :: (if has_chord then [RUnit] else []) ++ tick_script has_chord t
+  end.
+
+Fixpoint tick_calls (chord : list event) (next_wakeup interval_ns : Z) (nows : list Z) : list call :=
+  match nows with
+  | [] => [CNow]
+  | now :: t =>
+    CNow :: CPoll (Some (timeout_of next_wakeup now))
+         :: (if non_nil chord then [CSend chord] else [])
+         ++ tick_calls chord (next_wakeup + interval_ns)%Z interval_ns t
+  end.
+
 (* ---------- admissible transcripts with a condition on every answer ---------- *)
 
 Inductive epathP (P : env -> call -> Prop) : env -> list (call * resp) -> env -> Prop :=
